@@ -20,6 +20,9 @@ Definition rc3 (x : option reconcile) : Prop := x = Some RPending \/ x = Some RF
 Section Wait.
   Variable sc : scenario.
   Variable c0 : cluster.
+  (* the apply ids of the plan: the resource cache also holds what the apply-time mutator Put there about
+     its sources, which are objects of the apply set; the lingering objects are prune objects *)
+  Variable aids : list id.
 
   (* a status delivery does not lie about a finalizer-held object: not NotFound,
      and no UID other than the one the object has in c0 *)
@@ -27,11 +30,11 @@ Section Wait.
     u_fin (uinfo_of sc (s_id o)) = true ->
     s_st o <> SNotFound /\
     (s_body o = true -> s_uid o <> 0%N -> forall c, fo c0 (s_id o) = Some c -> s_uid o = c_uid c).
-  Definition cacheok (s : rst) : Prop := forall o, In o (r_cache s) -> finok o.
+  Definition cacheok (s : rst) : Prop := forall o, In o (r_cache s) -> In (s_id o) aids \/ finok o.
 
   (* j lingers: held by a finalizer, its delete was accepted (recorded with the UID it has in c0) *)
   Definition ling (s : rst) (j : id) : Prop :=
-    u_fin (uinfo_of sc j) = true /\
+    u_fin (uinfo_of sc j) = true /\ ~ In j aids /\
     exists c', fo c0 j = Some c' /\ tv s j = Some (SDelete, ASucceeded, c_uid c').
 
   Lemma cache_get_id c i : s_id (cache_get c i) = i.
@@ -40,11 +43,12 @@ Section Wait.
     destruct (Nat.eqb (s_id x) i) eqn:E; [apply Nat.eqb_eq; exact E|exact IH].
   Qed.
 
-  Lemma cache_get_ok s i : cacheok s -> finok (cache_get (r_cache s) i).
+  Lemma cache_get_ok s i : cacheok s -> In i aids \/ finok (cache_get (r_cache s) i).
   Proof.
     unfold cacheok. induction (r_cache s) as [|x t IH]; intros H; cbn.
-    - intros _. cbn. split; [discriminate|intros X; discriminate X].
-    - destruct (Nat.eqb (s_id x) i); [apply H; left; reflexivity|apply IH; intros o Ho; apply H; right; exact Ho].
+    - right. intros _. cbn. split; [discriminate|intros X; discriminate X].
+    - destruct (Nat.eqb (s_id x) i) eqn:E; [|apply IH; intros o Ho; apply H; right; exact Ho].
+      apply Nat.eqb_eq in E. destruct (H x (or_introl eq_refl)) as [A|A]; [left; rewrite <- E; exact A|right; exact A].
   Qed.
 
   Lemma tv_lookup s j st a u : tv s j = Some (st, a, u) ->
@@ -57,8 +61,8 @@ Section Wait.
   Lemma ling_safe s j : cacheok s -> ling s j ->
     changed_uid s j = false /\ cond_met AllNotFound s j = false /\ w_skipped AllNotFound s j = false.
   Proof.
-    intros CO [UF [c' [H0 HT]]]. destruct (tv_lookup _ _ _ _ _ HT) as [r [L [E1 [E2 E3]]]].
-    pose proof (cache_get_ok s j CO) as FO. unfold finok in FO. rewrite cache_get_id in FO.
+    intros CO [UF [NA [c' [H0 HT]]]]. destruct (tv_lookup _ _ _ _ _ HT) as [r [L [E1 [E2 E3]]]].
+    destruct (cache_get_ok s j CO) as [FO|FO]; [contradiction|]. unfold finok in FO. rewrite cache_get_id in FO.
     destruct (FO UF) as [NF UID]. split; [|split].
     - unfold changed_uid. rewrite L. destruct (N.eqb (r_uid r) 0); [reflexivity|].
       destruct (s_body (cache_get (r_cache s) j)) eqn:B; cbn [negb]; [|reflexivity].
@@ -106,7 +110,7 @@ Section Wait.
   Qed.
 
   Lemma ling_now c ids s0 s pend done j : MI c ids s0 s pend done -> ling s0 j -> ling s j.
-  Proof. intros M [UF [c' [H0 HT]]]. split; [exact UF|]. exists c'. split; [exact H0|]. rewrite (M_tv _ _ _ _ _ _ M). exact HT. Qed.
+  Proof. intros M [UF [NA [c' [H0 HT]]]]. split; [exact UF|]. split; [exact NA|]. exists c'. split; [exact H0|]. rewrite (M_tv _ _ _ _ _ _ M). exact HT. Qed.
 
   Lemma ling_contra c ids s0 s pend done i : MI c ids s0 s pend done -> c = AllNotFound -> ling s0 i ->
     changed_uid s i = true \/ cond_met c s i = true \/ w_skipped c s i = true -> False.
@@ -284,7 +288,7 @@ Section Wait.
     { apply (MI_tbl_same c ids s0 s s3); [unfold s3, s2; destruct (o_status_events (sc_opts sc)); reflexivity| |exact M].
       intros o Ho. assert (X : o = d \/ In o (r_cache s)).
       { unfold s3, s2 in Ho. destruct (o_status_events (sc_opts sc)); cbn in Ho; destruct Ho as [<-|Ho]; auto. }
-      destruct X as [->|X]; [apply HF; left; reflexivity|exact (M_cache _ _ _ _ _ _ M o X)]. }
+      destruct X as [->|X]; [right; apply HF; left; reflexivity|exact (M_cache _ _ _ _ _ _ M o X)]. }
     assert (HF' : forall d0, In d0 t -> finok d0) by (intros d0 Hd; apply HF; right; exact Hd).
     destruct (memn (s_id d) ids) eqn:MD.
     - apply memn_In in MD. pose proof (MI_wait_update c g ids s0 s3 w (s_id d) MD M3) as U.
